@@ -108,10 +108,10 @@ func runC06(c *Ctx) {
 	}
 	ruleNoGetBody(c, p, "C06.A")
 	ruleChainNotRetried(c, p, "C06.A")
-	c06Refusal(c, p)
+	c06Refusal(c, p, "C06.R")
 	c.Rule("C06.B", "the replay buffer retains exactly the bytes it handed out, at the offsets it handed them out", 9)
-	c06Retain(c, p)
-	c06Fence(c, p, f)
+	c06Retain(c, p, "C06.B")
+	c06Fence(c, p, "C06.X", f)
 	c06Unblock(c, p)
 }
 
@@ -258,8 +258,8 @@ func c06Rewind(c *Ctx, p *Prog, rule string, f *ssa.Function, do ssa.Instruction
 	}
 }
 
-func c06Refusal(c *Ctx, p *Prog) {
-	f := c.need(p, "C06.R", "agent/utils.(*bufferedReadSeeker).Seek")
+func c06Refusal(c *Ctx, p *Prog, rule string) {
+	f := c.need(p, rule, "agent/utils.(*bufferedReadSeeker).Seek")
 	if f == nil {
 		return
 	}
@@ -268,7 +268,7 @@ func c06Refusal(c *Ctx, p *Prog) {
 		reset = append(reset, st)
 	}
 	if len(reset) == 0 {
-		c.Unk("C06.R", "seek:reset-site", p, f.Pos(), "Seek no longer stores to readHead")
+		c.Unk(rule, "seek:reset-site", p, f.Pos(), "Seek no longer stores to readHead")
 		return
 	}
 	isReset := func(i ssa.Instruction) bool {
@@ -292,13 +292,11 @@ func c06Refusal(c *Ctx, p *Prog) {
 					}
 				}
 			}
-			if len(f.Params) == 3 {
-				if v == ssa.Value(ParamAt(f, 1)) {
-					return IntC(offset), true
-				}
-				if v == ssa.Value(ParamAt(f, 2)) {
-					return IntC(whence), true
-				}
+			if prm := ParamAt(f, 1); prm != nil && v == ssa.Value(prm) {
+				return IntC(offset), true
+			}
+			if prm := ParamAt(f, 2); prm != nil && v == ssa.Value(prm) {
+				return IntC(whence), true
 			}
 			return nil, false
 		}
@@ -326,7 +324,7 @@ func c06Refusal(c *Ctx, p *Prog) {
 		if t.wantReset {
 			want = "rewinds"
 		}
-		c.Check("C06.R", "seek:"+t.name, p, f.Pos(), got == t.wantReset, fmt.Sprintf("Seek %s for writeHead=%d, len(buf)=%d, offset=%d, whence=%d (%s)", want, t.writeHead, L, t.off, t.whence, t.why), fmt.Sprintf("Seek does not behave as required for writeHead=%d, len(buf)=%d, offset=%d, whence=%d: expected it %s (%s)", t.writeHead, L, t.off, t.whence, want, t.why))
+		c.Check(rule, "seek:"+t.name, p, f.Pos(), got == t.wantReset, fmt.Sprintf("Seek %s for writeHead=%d, len(buf)=%d, offset=%d, whence=%d (%s)", want, t.writeHead, L, t.off, t.whence, t.why), fmt.Sprintf("Seek does not behave as required for writeHead=%d, len(buf)=%d, offset=%d, whence=%d: expected it %s (%s)", t.writeHead, L, t.off, t.whence, want, t.why))
 	}
 	// the reset stores the offset (0 at the call site), not something else
 	for _, st := range reset {
@@ -338,10 +336,10 @@ func c06Refusal(c *Ctx, p *Prog) {
 		if v == ssa.Value(ParamAt(f, 1)) {
 			okv = true
 		}
-		c.Check("C06.R", "seek:reset-to-offset", p, st.Pos(), okv, "readHead is set to the requested offset", "readHead is reset to "+PathOf(v)+" rather than to the requested offset")
+		c.Check(rule, "seek:reset-to-offset", p, st.Pos(), okv, "readHead is set to the requested offset", "readHead is reset to "+PathOf(v)+" rather than to the requested offset")
 	}
 	// construction: constant positive size, buffer = make([]byte, size)
-	if ctor := c.need(p, "C06.R", "agent/utils.newBufferedReadSeeker"); ctor != nil {
+	if ctor := c.need(p, rule, "agent/utils.newBufferedReadSeeker"); ctor != nil {
 		okSize := false
 		for _, fn := range p.FuncsIn("agent/utils") {
 			for _, call := range Calls(fn, ModPath+"/agent/utils.newBufferedReadSeeker") {
@@ -353,11 +351,11 @@ func c06Refusal(c *Ctx, p *Prog) {
 				}
 			}
 		}
-		c.Check("C06.R", "buffer:constant-positive-size", p, ctor.Pos(), okSize, "the replay buffer is created with a positive constant size", "the replay buffer size is not a positive constant at its construction site")
+		c.Check(rule, "buffer:constant-positive-size", p, ctor.Pos(), okSize, "the replay buffer is created with a positive constant size", "the replay buffer size is not a positive constant at its construction site")
 	}
 }
 
-func c06Fence(c *Ctx, p *Prog, post *ssa.Function) {
+func c06Fence(c *Ctx, p *Prog, rule string, post *ssa.Function) {
 	// (1) lockset over the replay state
 	guards := []*Guard{}
 	for _, fld := range []string{"readHead", "writeHead", "buf", "gen"} {
@@ -373,7 +371,7 @@ func c06Fence(c *Ctx, p *Prog, post *ssa.Function) {
 			if g.Field == "gen" {
 				continue
 			}
-			c.Unk("C06.X", "guard:"+g.Field, p, 0, "replay-buffer field "+g.Field+" has no access (renamed?)")
+			c.Unk(rule, "guard:"+g.Field, p, 0, "replay-buffer field "+g.Field+" has no access (renamed?)")
 			continue
 		}
 		bad := ""
@@ -386,13 +384,13 @@ func c06Fence(c *Ctx, p *Prog, post *ssa.Function) {
 				break
 			}
 		}
-		c.Check("C06.X", "lockset:bufferedReadSeeker."+g.Field, p, 0, bad == "", "every access holds the replay buffer's mutex", bad+": "+g.Why+" — data race on the replay state, the acknowledged attempt can miss or duplicate bytes")
+		c.Check(rule, "lockset:bufferedReadSeeker."+g.Field, p, 0, bad == "", "every access holds the replay buffer's mutex", bad+": "+g.Why+" — data race on the replay state, the acknowledged attempt can miss or duplicate bytes")
 	}
 	if post == nil {
 		return
 	}
 	// (2) per-attempt handle: the body of the request given to Do derives from the rewind call result
-	do := c.UniqueCall("C06.X", p, post, false, "(*net/http.Client).Do")
+	do := c.UniqueCall(rule, p, post, false, "(*net/http.Client).Do")
 	if do == nil {
 		return
 	}
@@ -414,16 +412,16 @@ func c06Fence(c *Ctx, p *Prog, post *ssa.Function) {
 		return fn != nil && p.IsModFunc(fn) && rewinder(fn)
 	}
 	if bodyVal == nil {
-		c.Bad("C06.X", "fence:per-attempt-handle", p, do.Pos(), "the request sent by client.Do does not get a per-attempt body (no store to its Body field in the loop): all attempts share one body object, so a superseded attempt's reader can take bytes meant for the retry")
+		c.Bad(rule, "fence:per-attempt-handle", p, do.Pos(), "the request sent by client.Do does not get a per-attempt body (no store to its Body field in the loop): all attempts share one body object, so a superseded attempt's reader can take bytes meant for the retry")
 	} else {
 		reaches, _ := DerivesFrom(bodyVal, isRewCall, func(ssa.Value) bool { return false })
-		c.Check("C06.X", "fence:per-attempt-handle", p, do.Pos(), reaches && InLoop(do.Block()) || reaches, "each attempt's body is the handle returned by that attempt's own rewind", "the body given to client.Do ("+PathOf(bodyVal)+") is not produced by the attempt's own rewind call: attempts share a reader")
+		c.Check(rule, "fence:per-attempt-handle", p, do.Pos(), reaches && InLoop(do.Block()) || reaches, "each attempt's body is the handle returned by that attempt's own rewind", "the body given to client.Do ("+PathOf(bodyVal)+") is not produced by the attempt's own rewind call: attempts share a reader")
 	}
 	// (3) the handle refuses when stale
-	if rd := c.need(p, "C06.X", "agent/utils.(attemptReader).Read"); rd != nil {
+	if rd := c.need(p, rule, "agent/utils.(attemptReader).Read"); rd != nil {
 		src := Calls(rd, "(*"+ModPath+"/agent/utils.bufferedReadSeeker).Read")
 		if len(src) != 1 {
-			c.Unk("C06.X", "fence:stale-handle-refused", p, rd.Pos(), "attemptReader.Read does not delegate to the replay buffer at exactly one site")
+			c.Unk(rule, "fence:stale-handle-refused", p, rd.Pos(), "attemptReader.Read does not delegate to the replay buffer at exactly one site")
 		} else {
 			env := func(equal bool) Env {
 				return func(v ssa.Value) (constant.Value, bool) {
@@ -442,8 +440,8 @@ func c06Fence(c *Ctx, p *Prog, post *ssa.Function) {
 			isSrc := func(i ssa.Instruction) bool { return i == src[0] }
 			hs, _ := (&Walk{Target: isSrc, Edge: EdgeUnder(env(false))}).FromBlock(rd.Blocks[0])
 			hc, _ := (&Walk{Target: isSrc, Edge: EdgeUnder(env(true))}).FromBlock(rd.Blocks[0])
-			c.Check("C06.X", "fence:stale-handle-refused", p, rd.Pos(), hs == nil, "a handle of a superseded generation never reaches the source", "a superseded attempt's handle still reads from the shared source: it takes bytes the retry then misses")
-			c.Check("C06.X", "fence:current-handle-reads", p, rd.Pos(), hc != nil, "the current generation's handle reads", "the current attempt's handle cannot read")
+			c.Check(rule, "fence:stale-handle-refused", p, rd.Pos(), hs == nil, "a handle of a superseded generation never reaches the source", "a superseded attempt's handle still reads from the shared source: it takes bytes the retry then misses")
+			c.Check(rule, "fence:current-handle-reads", p, rd.Pos(), hc != nil, "the current generation's handle reads", "the current attempt's handle cannot read")
 		}
 	}
 	// (4) the rewind bumps the generation under the lock before seeking
@@ -454,9 +452,9 @@ func c06Fence(c *Ctx, p *Prog, post *ssa.Function) {
 			bo, isB := sts[0].Val.(*ssa.BinOp)
 			okg = isB && bo.Op == token.ADD && isConstInt(bo.Y, 1)
 		}
-		c.Check("C06.X", "fence:generation-advances", p, na.Pos(), okg, "every rewind advances the generation by one", "the rewind no longer advances the generation: the previous attempt's handle stays valid")
+		c.Check(rule, "fence:generation-advances", p, na.Pos(), okg, "every rewind advances the generation by one", "the rewind no longer advances the generation: the previous attempt's handle stays valid")
 	} else {
-		c.Unk("C06.X", "fence:generation-advances", p, 0, "nextAttempt not found")
+		c.Unk(rule, "fence:generation-advances", p, 0, "nextAttempt not found")
 	}
 }
 
@@ -626,8 +624,8 @@ func c06Unblock(c *Ctx, p *Prog) {
 // p[k:], the bytes retained for a later replay must be p[k:k+n] (not p[:n]),
 // appended at writeHead, and k+n is what the caller is told. Decided by
 // evaluating the slice bounds for k=3, n=5 (and k=0, n=5).
-func c06Retain(c *Ctx, p *Prog) {
-	rd := c.need(p, "C06.B", "agent/utils.(*bufferedReadSeeker).Read")
+func c06Retain(c *Ctx, p *Prog, rule string) {
+	rd := c.need(p, rule, "agent/utils.(*bufferedReadSeeker).Read")
 	if rd == nil {
 		return
 	}
@@ -668,10 +666,10 @@ func c06Retain(c *Ctx, p *Prog) {
 		}
 	}
 	if src == nil || replay == nil || retain == nil || replay == retain {
-		c.Unk("C06.B", "read:shape", p, rd.Pos(), "Read is no longer `k := copy(p, buf[readHead:writeHead]); n := source.Read(p[k:]); copy(buf[writeHead:], <fresh bytes>)`: the retained prefix cannot be related to the bytes handed out")
+		c.Unk(rule, "read:shape", p, rd.Pos(), "Read is no longer `k := copy(p, buf[readHead:writeHead]); n := source.Read(p[k:]); copy(buf[writeHead:], <fresh bytes>)`: the retained prefix cannot be related to the bytes handed out")
 		return
 	}
-	c.OK("C06.B", "read:shape", p, rd.Pos(), "replay copy, one source read, retain copy")
+	c.OK(rule, "read:shape", p, rd.Pos(), "replay copy, one source read, retain copy")
 	var n ssa.Value
 	for _, r := range Refs(src) {
 		if ex, ok := r.(*ssa.Extract); ok && ex.Index == 0 {
@@ -754,20 +752,20 @@ func c06Retain(c *Ctx, p *Prog) {
 				}
 				return false
 			}, Edge: EdgeUnder(e)}).FromBlock(entry)
-			c.Check("C06.B", fmt.Sprintf("read:source-fills-after-replayed[k=%d]", t.k), p, src.Pos(), okRet, "with replayed bytes in hand the call returns exactly them (k, nil) without reading the source", fmt.Sprintf("with %d bytes replayed the source is not read but the call does not return (%d, nil)", t.k, t.k))
-			c.OK("C06.B", fmt.Sprintf("read:retains-the-fresh-bytes[k=%d]", t.k), p, retain.Pos(), "no fresh bytes in a replay-only call: nothing to retain")
+			c.Check(rule, fmt.Sprintf("read:source-fills-after-replayed[k=%d]", t.k), p, src.Pos(), okRet, "with replayed bytes in hand the call returns exactly them (k, nil) without reading the source", fmt.Sprintf("with %d bytes replayed the source is not read but the call does not return (%d, nil)", t.k, t.k))
+			c.OK(rule, fmt.Sprintf("read:retains-the-fresh-bytes[k=%d]", t.k), p, retain.Pos(), "no fresh bytes in a replay-only call: nothing to retain")
 			continue
 		}
 		lo, hi, ok := window(PArgs(&src.Call)[0], e)
-		c.Check("C06.B", fmt.Sprintf("read:source-fills-after-replayed[k=%d]", t.k), p, src.Pos(), ok && lo == t.k && hi == -1, "the source reads into p[k:]", fmt.Sprintf("with %d bytes replayed the source is read into p[%d:%d] rather than p[%d:]: replayed bytes are overwritten or a gap is left", t.k, lo, hi, t.k))
+		c.Check(rule, fmt.Sprintf("read:source-fills-after-replayed[k=%d]", t.k), p, src.Pos(), ok && lo == t.k && hi == -1, "the source reads into p[k:]", fmt.Sprintf("with %d bytes replayed the source is read into p[%d:%d] rather than p[%d:]: replayed bytes are overwritten or a gap is left", t.k, lo, hi, t.k))
 		lo, hi, ok = window(PArgs(&retain.Call)[1], e)
-		c.Check("C06.B", fmt.Sprintf("read:retains-the-fresh-bytes[k=%d]", t.k), p, retain.Pos(), ok && lo == t.k && hi == t.k+t.n, "the bytes retained for replay are p[k:k+n], exactly those the source just produced", fmt.Sprintf("with k=%d bytes replayed and n=%d bytes read from the source, the buffer retains p[%d:%d] instead of p[%d:%d]: a later retry replays the wrong bytes (the upload body differs between attempts)", t.k, t.n, lo, hi, t.k, t.k+t.n))
+		c.Check(rule, fmt.Sprintf("read:retains-the-fresh-bytes[k=%d]", t.k), p, retain.Pos(), ok && lo == t.k && hi == t.k+t.n, "the bytes retained for replay are p[k:k+n], exactly those the source just produced", fmt.Sprintf("with k=%d bytes replayed and n=%d bytes read from the source, the buffer retains p[%d:%d] instead of p[%d:%d]: a later retry replays the wrong bytes (the upload body differs between attempts)", t.k, t.n, lo, hi, t.k, t.k+t.n))
 	}
 	// destination of the retain copy: buf[writeHead:]
 	dst := isBufSlice(PArgs(&retain.Call)[0])
 	e := env(0, 5, 10)
 	dlo, ok1 := bound(dst.Low, e, 0)
-	c.Check("C06.B", "read:retains-at-writeHead", p, retain.Pos(), ok1 && dlo == 10 && dst.High == nil, "retained bytes are appended at writeHead", "retained bytes are not appended at buf[writeHead:]: the stored prefix is no longer the stream prefix")
+	c.Check(rule, "read:retains-at-writeHead", p, retain.Pos(), ok1 && dlo == 10 && dst.High == nil, "retained bytes are appended at writeHead", "retained bytes are not appended at buf[writeHead:]: the stored prefix is no longer the stream prefix")
 	// replay source: buf[readHead:writeHead] into p
 	rs := isBufSlice(PArgs(&replay.Call)[1])
 	okr := PArgs(&replay.Call)[0] == ssa.Value(bufP) && rs.Low != nil && rs.High != nil
@@ -776,7 +774,7 @@ func c06Retain(c *Ctx, p *Prog) {
 		_, f2, o2 := FieldLoad(rs.High)
 		okr = o1 && o2 && f1 == "readHead" && f2 == "writeHead"
 	}
-	c.Check("C06.B", "read:replays-readHead-to-writeHead", p, replay.Pos(), okr, "the replay hands out buf[readHead:writeHead] into p", "the replay no longer copies buf[readHead:writeHead] to the start of p")
+	c.Check(rule, "read:replays-readHead-to-writeHead", p, replay.Pos(), okr, "the replay hands out buf[readHead:writeHead] into p", "the replay no longer copies buf[readHead:writeHead] to the start of p")
 	// heads advance by what was copied; result = k+n
 	for _, fld := range []string{"writeHead"} {
 		sts := StoresToField([]*ssa.Function{rd}, "agent/utils.bufferedReadSeeker", fld)
@@ -786,7 +784,7 @@ func c06Retain(c *Ctx, p *Prog) {
 			x, _ := constant.Int64Val(constant.ToInt(cvOr(cv, ok)))
 			okw = ok && x == 15
 		}
-		c.Check("C06.B", "read:"+fld+"-advances-by-retained", p, rd.Pos(), okw, fld+" advances by the number of bytes retained", fld+" does not advance by exactly the number of retained bytes: the buffer claims more or fewer prefix bytes than it holds")
+		c.Check(rule, "read:"+fld+"-advances-by-retained", p, rd.Pos(), okw, fld+" advances by the number of bytes retained", fld+" does not advance by exactly the number of retained bytes: the buffer claims more or fewer prefix bytes than it holds")
 	}
 	okres := true
 	for _, t := range []struct{ k, n int64 }{{3, 5}, {0, 5}} {
@@ -806,7 +804,7 @@ func c06Retain(c *Ctx, p *Prog) {
 			return false
 		}, Edge: EdgeUnder(e2)}).FromBlock(entry)
 	}
-	c.Check("C06.B", "read:reports-k-plus-n", p, rd.Pos(), okres, "Read reports replayed+fresh bytes", "Read does not report replayed+fresh bytes: the uploader sends a body of the wrong length")
+	c.Check(rule, "read:reports-k-plus-n", p, rd.Pos(), okres, "Read reports replayed+fresh bytes", "Read does not report replayed+fresh bytes: the uploader sends a body of the wrong length")
 }
 
 func cvOr(cv constant.Value, ok bool) constant.Value {
